@@ -307,6 +307,23 @@ def runHistory (imported : Exec) : List (Int × Exec) → List Exec → List (Op
     | some first => effectiveExec imported first now :: runHistory imported cache rest
     | none => effectiveExec imported now now :: runHistory imported ((now.threadId, now) :: cache) rest
 
+/-- `effectiveExec` / `runHistory` for ANY lookup policies (the generated ones are `Gen.threadLookup`,
+`Gen.processLookup`): used to refute the caching shapes, e.g. across `os.fork()`, where the child keeps the thread
+ident (and every thread-local / module-level value) of the forking thread but is another process -/
+def effectiveExecWith (lt lp : Lookup) (imported first now : Exec) : Option Exec :=
+  match lookupCtx lt imported first now, lookupCtx lp imported first now with
+  | some t, some p =>
+    some { now with threadId := t.threadId, threadName := t.threadName,
+                    processId := p.processId, processName := p.processName }
+  | _, _ => none
+
+def runHistoryWith (lt lp : Lookup) (imported : Exec) : List (Int × Exec) → List Exec → List (Option Exec)
+  | _, [] => []
+  | cache, now :: rest =>
+    match cache.lookup now.threadId with
+    | some first => effectiveExecWith lt lp imported first now :: runHistoryWith lt lp imported cache rest
+    | none => effectiveExecWith lt lp imported now now :: runHistoryWith lt lp imported ((now.threadId, now) :: cache) rest
+
 /-! ### one Catcher object used by several actors whose exits overlap
 
 `logger.catch()` returns ONE object; nothing stops an application from entering it in several threads / tasks at once
